@@ -61,7 +61,7 @@ TOLERANCES = {
 
 DTS = [("d1e-3", 1e-3), ("d0.1", 0.1), ("d0.75", 0.75), ("d10", 10.0)]
 NEWMARK = {"trap": (0.5, 0.25), "damped": (0.6, 0.3025), "b0.3": (0.5, 0.3)}
-PROPS = {"A": (1.0, 10.0, 0.0), "B": (2.5, 4.0, 0.3)}       # (density, E, nu)
+PROPS = {"A": (1.0, 10.0, 0.0), "B": (2.5, 4.0, 0.3), "C": (1.5, 8.0, 0.45)}       # (density, E, nu); C only with pressure projection
 MESHES = ["s2x2", "d3x2"]
 ORDERS = [1, 2]
 MATS = ["le", "nh"]
@@ -79,7 +79,7 @@ def bounds(tier):
     return {"depth": d, "dt_alphabet": [l for l, _ in DTS], "histories_per_root": sum(4 ** k for k in range(1, d + 1)),
             "meshes": MESHES, "orders": ORDERS, "props(rho,E,nu)": PROPS, "newmark(gamma,beta)": NEWMARK,
             "materials": MATS, "bcs": BCS, "initial_fields": INITS,
-            "compiled_configurations": len(MESHES) * len(ORDERS) * len(PROPS) * len(NEWMARK) * len(MATS),
+            "compiled_configurations": len(MESHES) * len(ORDERS) * 2 * len(NEWMARK) * len(MATS) + 4,
             "roots_per_configuration": len(BCS) * len(INITS)}
 
 
@@ -88,10 +88,16 @@ def groups(tier, seed):
     for order in (2, 1):
         for mat in ("nh", "le"):
             for mesh in ("d3x2", "s2x2"):
-                for pk in PROPS:
+                for pk in ("A", "B"):
                     for nm in NEWMARK:
                         gs.append({"name": "%s-p%d-%s-%s-%s" % (mesh, order, mat, pk, nm),
                                    "mesh": mesh, "order": order, "mat": mat, "props": pk, "nm": nm})
+    # volume-averaged pressure projection (added after a seeded change in that option went undetected): nearly
+    # incompressible neo-Hookean, quadratic elements, projection degree 0 and 1
+    for pp in (1, 0):
+        for nm in ("trap", "damped"):
+            gs.append({"name": "d3x2-p2-nh-C-%s-pp%d" % (nm, pp), "mesh": "d3x2", "order": 2, "mat": "nh", "props": "C",
+                       "nm": nm, "pp": pp})
     return gs
 
 
@@ -168,7 +174,8 @@ def run_group(g, tier, seed, rec):
     matmod = LinearElastic if matname == "le" else Neohookean
     material = matmod.create_material_model_functions(props)
     dyn = Mechanics.create_dynamics_functions(fs, "plane strain", material,
-                                              Mechanics.NewmarkParameters(gamma=gamma, beta=beta))
+                                              Mechanics.NewmarkParameters(gamma=gamma, beta=beta),
+                                              pressureProjectionDegree=g.get("pp"))
     iv = dyn.compute_initial_state()
     coords = onp.array(mesh.coords, dtype=float)
     conns = onp.array(mesh.conns)
